@@ -430,3 +430,55 @@ def initfalse_fault_battery(v: Verdict):
                     else:
                         v.violation("transform_error does not report exactly the fault paths (one leaf error per fault, none for valid siblings)", rp)
     v.coverage["initfalse_fault_battery"] = hist
+
+
+def omit_default_encoding_battery(v: Verdict):
+    """C03 under omit_if_default (the three ways of switching it on): an attribute that is NOT omitted is encoded by its declared type like any
+    other -- whatever kind of default it has (value, Factory, Factory(takes_self=True)).  Attribute types that need converting (enum,
+    class, List[class], Dict[str, enum], Optional[class]); values different from the default."""
+    import enum
+    from typing import Optional
+    from cattrs import Converter
+    from cattrs.gen import make_dict_unstructure_fn, override
+    hist = {"cases": 0}
+
+    class OK_(enum.Enum):
+        A = "a"
+        B = "b"
+    OInner = attrs.make_class("OInner", {"x": attrs.field(type=int, default=0)})
+    kinds = [("OK_", OK_, OK_.A, OK_.B, "b"), ("OInner", OInner, OInner(0), OInner(5), {"x": 5}), ("List[OInner]", List[OInner], [], [OInner(1)], [{"x": 1}]),
+             ("Dict[str, OK_]", Dict[str, OK_], {}, {"k": OK_.B}, {"k": "b"}), ("Optional[OInner]", Optional[OInner], None, OInner(2), {"x": 2})]
+    dkinds = ["value", "Factory", "Factory(takes_self=True)"]
+    for tname, T_, dflt, val, want in kinds:
+        for dk in dkinds:
+            import copy as _copy
+            if dk == "value":
+                if isinstance(dflt, (list, dict)):
+                    continue                # (mutable default values are not something attrs users write)
+                d = dflt
+            elif dk == "Factory":
+                d = attrs.Factory(lambda dflt=dflt: _copy.deepcopy(dflt))
+            else:
+                d = attrs.Factory(lambda self, dflt=dflt: _copy.deepcopy(dflt), takes_self=True)
+            cl = attrs.make_class("ODC", {"n": attrs.field(type=int, default=0), "t": attrs.field(type=T_, default=d)})
+            for how in ("Converter(omit_if_default=True)", "override(omit_if_default=True) on the attribute", "make_dict_unstructure_fn(cl, conv, _cattrs_omit_if_default=True)"):
+                if how.startswith("Converter"):
+                    conv = Converter(omit_if_default=True)
+                elif how.startswith("override"):
+                    conv = Converter()
+                    conv.register_unstructure_hook(cl, make_dict_unstructure_fn(cl, conv, t=override(omit_if_default=True)))
+                else:
+                    conv = Converter()
+                    conv.register_unstructure_hook(cl, make_dict_unstructure_fn(cl, conv, _cattrs_omit_if_default=True))
+                hist["cases"] += 1
+                desc = {"battery": "OMIT-DEFAULT ENCODING", "attribute": f"t: {tname} = {dk}", "omit_if_default": how, "value": repr(cl(n=1, t=val))}
+                v.count(repr(("ode", desc)), True)
+                try:
+                    got = conv.unstructure(cl(n=1, t=_copy.deepcopy(val)))
+                except Exception as e:      # noqa
+                    v.violation("unstructure raised on a value of the type", {**desc, "raised": repr(e)[:200]})
+                    continue
+                if got.get("t", "<omitted>") != want or type(got.get("t")) is not type(want):
+                    v.violation("unstructured output contains a non-primitive object or differs from the documented encoding (omit_if_default)",
+                                {**desc, "got": repr(got), "expected": repr({"n": 1, "t": want})})
+    v.coverage["omit_default_encoding_battery"] = hist
